@@ -94,6 +94,7 @@ func (m *ChainMonitor) CheckChain(blocks []*ledger.Block, step string) {
 		}
 		rewards := 0
 		var rewardValue uint64
+		rewardCreated := new(big.Int)
 		totalFees := new(big.Int)
 		// C02/C01 are judged against the state before this block (outputs of earlier blocks)
 		created := map[outKey]*outRec{}
@@ -101,6 +102,10 @@ func (m *ChainMonitor) CheckChain(blocks []*ledger.Block, step string) {
 			if t.HasReward() {
 				rewards++
 				rewardValue = t.RewardValue()
+				// everything a reward transaction creates counts, not only the output RewardValue() reads
+				for _, o := range t.Outputs() {
+					rewardCreated.Add(rewardCreated, new(big.Int).SetUint64(o.InitialValue()))
+				}
 			} else if k > 0 {
 				// C04 (v)
 				if t.Timestamp() > b.Timestamp() || t.Timestamp() < blocks[k-1].Timestamp() {
@@ -202,6 +207,8 @@ func (m *ChainMonitor) CheckChain(blocks []*ledger.Block, step string) {
 			}
 			if new(big.Int).SetUint64(rewardValue).Cmp(totalFees) > 0 {
 				m.hit("C01", "reward-bound", fmt.Sprintf("%s: block %d reward %d > fees %s", step, k, rewardValue, totalFees))
+			} else if rewardCreated.Cmp(totalFees) > 0 {
+				m.hit("C01", "reward-bound", fmt.Sprintf("%s: the reward transaction(s) of block %d create %s in all, the fees are %s", step, k, rewardCreated, totalFees))
 			}
 		}
 		regPrev = map[string]bool{}
